@@ -82,6 +82,10 @@ pub struct SchedState {
     // knobs
     pub sticky: u32,
     pub early_timer_pct: u32,
+    /// code takes time: when set, every reading of the clock by the code under test is this many nanoseconds later
+    /// than the previous one (on top of the virtual time), so two readings are never equal and "elapsed" is never zero
+    pub clock_reading_cost_ns: u64,
+    pub clock_readings: u64,
     pub spurious_pct: u32,
     last: usize,
     /// async timers registered by simulated executors: (deadline, waker)
@@ -132,6 +136,8 @@ impl Sched {
                 switches: 0,
                 sticky,
                 early_timer_pct,
+                clock_reading_cost_ns: 0,
+                clock_readings: 0,
                 spurious_pct,
                 last: 0,
                 wakers: Vec::new(),
@@ -609,7 +615,12 @@ impl Hooks for ThreadHooks {
     }
 
     fn now(&self) -> Duration {
-        self.sched.now()
+        let mut st = self.sched.lock();
+        if st.clock_reading_cost_ns == 0 {
+            return st.now;
+        }
+        st.clock_readings += 1;
+        st.now + Duration::from_nanos(st.clock_readings * st.clock_reading_cost_ns)
     }
 
     fn timer(&self, deadline: Duration, waker: &Waker) {
